@@ -358,5 +358,10 @@ class StochasticAndFilterDuplicatesSearcher(StochasticSearcher):
         k = "restrict_configurations"
         if k in state:
             self._restrict_configurations = state[k]
+            # Positions are marked and reset within one call of
+            # :meth:`get_config`, so there is nothing to restore. The object
+            # may have been created without ``restrict_configurations``
+            self._rc_returned_pos = set()
         else:
             self._restrict_configurations = None
+            self._rc_returned_pos = None
